@@ -181,9 +181,11 @@ class Journaler:
                     (seq_no, session.key),
                 )
             elif direction == MessageDirection.INBOUND:
+                # After SequenceReset the session already expects NewSeqNo, which
+                #   is ahead of the message itself
                 self.cursor.execute(
                     "UPDATE session SET inboundSeqNo=? WHERE sessionId = ?",
-                    (seq_no, session.key),
+                    (max(seq_no, session.next_num_in - 1), session.key),
                 )
 
             self.conn.commit()
